@@ -66,3 +66,8 @@ Fixpoint fits (params : list gty) (vt : option gty) (vs : list value) : bool :=
 
 Definition supported_value (v : value) : bool :=
   match v with VInt _ | VBool _ | VStr _ | VDur _ => true | _ => false end.
+
+(* [VOther t] stands for a value whose dynamic type is none of the four supported ones (a value of
+   dynamic type int IS a [VInt]); the junk term [VOther TInt] denotes no Go value. *)
+Definition wf_value (v : value) : bool :=
+  match v with VOther t => negb (supported t) | _ => true end.
